@@ -27,7 +27,10 @@ try:
     out['applies'] = r.returncode == 0
     if not out['applies']:
         out['apply_error'] = r.stderr[-500:]
-        raise SystemExit
+        checks = []
+        raise StopIteration
+    if os.environ.get('TRY_SEED_CHECKS_ONLY'):
+        raise StopIteration
     r = sh(f'cd {wt} && /venv/bin/python -m pytest -q -p no:cacheprovider --timeout=900 --continue-on-collection-errors 2>&1 | tail -1')
     out['tests'] = r.stdout.strip()
     out['tests_pass'] = '3583 passed' in r.stdout
@@ -43,6 +46,11 @@ try:
         out['demo'] = {'with_change_rc': a.returncode, 'without_change_rc': b.returncode,
                        'with_change_tail': (a.stdout + a.stderr)[-300:]}
         out['demo_ok'] = a.returncode != 0 and b.returncode == 0
+except StopIteration:
+    pass
+finally:
+    pass
+try:
     env = dict(os.environ, VERIF_REPO=wt, VERIF_OUT=os.path.join(tmp, 'out'))
     for c in checks:
         r = subprocess.run([os.path.join(VERIF, 'vcheck'), c, '--tier', 'quick'], capture_output=True, text=True, env=env, cwd=VERIF)
